@@ -606,6 +606,7 @@ func ruleDateZone(c *Ctx, r *Rep, tier string) {
 func ruleMergeKeeps(c *Ctx, r *Rep, tier string) {
 	rule := "MERGE-KEEPS"
 	fn := c.Func("sam", "(*Header).AddReference")
+	kept := keptTextFields(c, "Reference")
 	n := 0
 	for _, e := range effectsOf(fn) {
 		if e.Kind != "store" || !strings.HasPrefix(e.Addr, "$0.refs[") || !strings.Contains(e.Addr, "].") {
@@ -613,6 +614,11 @@ func ruleMergeKeeps(c *Ctx, r *Rep, tier string) {
 		}
 		// the slot itself is not a field of the owned reference
 		F := e.Addr[strings.LastIndex(e.Addr, ".")+1:]
+		if kept[F] {
+			// a field in which String keeps its own text: resetting it discards
+			// nothing the header knows (MEMO-COHERENT demands exactly this store)
+			continue
+		}
 		n++
 		r.Instance(rule, 1)
 		key := "sam.(*Header).AddReference#merge-" + F
